@@ -946,7 +946,7 @@ async fn s_stream_same_id(h: &mut Host) -> Result<(), Fail> {
     let by_data = |d: u8| held.iter().find(|m| m.message.as_ref().map(|x| x.data == vec![d]).unwrap_or(false)).map(|m| m.ack_id.clone());
     let (a1, a2) = match (by_data(1), by_data(2)) { (Some(a), Some(b)) => (a, b), _ => return Err(f("C09", "deliveries do not carry the published data".into())) };
     let first = StreamingPullRequest { subscription: s.to_string(), ack_ids: vec![], modify_deadline_seconds: vec![], modify_deadline_ack_ids: vec![], stream_ack_deadline_seconds: 0, client_id: "c".into(), max_outstanding_messages: 10, max_outstanding_bytes: 0 };
-    let ctl1 = StreamingPullRequest { subscription: String::new(), ack_ids: vec![a1.clone()], modify_deadline_seconds: vec![30], modify_deadline_ack_ids: vec![a1], stream_ack_deadline_seconds: 0, client_id: String::new(), max_outstanding_messages: 0, max_outstanding_bytes: 0 };
+    let ctl1 = StreamingPullRequest { subscription: String::new(), ack_ids: vec![a1.clone()], modify_deadline_seconds: vec![30], modify_deadline_ack_ids: vec![a1], stream_ack_deadline_seconds: 30, client_id: String::new(), max_outstanding_messages: 0, max_outstanding_bytes: 0 };
     let ctl2 = StreamingPullRequest { subscription: String::new(), ack_ids: vec![], modify_deadline_seconds: vec![30, 0], modify_deadline_ack_ids: vec![a2.clone(), a2], stream_ack_deadline_seconds: 0, client_id: String::new(), max_outstanding_messages: 0, max_outstanding_bytes: 0 };
     let mut inbound = h.subscriber.streaming_pull(async_stream::stream! { yield first; yield ctl1; yield ctl2; futures::future::pending::<()>().await; }).await.map_err(setup("streaming_pull"))?.into_inner();
     match tokio::time::timeout(Duration::from_secs(5), inbound.message()).await {
